@@ -51,13 +51,14 @@ Lemma append_loop_inv : forall P, wf_params P = true -> forall es off d i0 A D,
   exists Ac', dinv P i0 (append_loop P es off d) Ac'
               /\ log_of (append_loop P es off d) = concat (map file_entries (d_files d)) ++ map row_entry A ++ es
               /\ d_meta (append_loop P es off d) = d_meta d
-              /\ (D = [] -> Forall all_live (d_files d) -> Forall all_live (d_files (append_loop P es off d))).
+              /\ (D = [] -> Forall all_live (d_files d) -> Forall all_live (d_files (append_loop P es off d)))
+              /\ (A <> [] \/ es <> [] -> Ac' <> []).
 Proof.
   intros P HP. destruct (wf_params_facts P HP) as (Hmax & Hoffp & Hsz).
   induction es as [|e r IH]; intros off d i0 A D L C Hnz Hfit Hend.
   - destruct L as (H1 & Hch & V & Cc & Hn & Hoff & Hlt & Hnil & HD). destruct (Hend eq_refl) as [-> HA].
-    cbn [append_loop]. exists A. split; [|split; [|split; [reflexivity|auto]]].
-    + unfold dinv. auto 10.
+    cbn [append_loop]. exists A. split; [|split; [|split; [reflexivity|split; [auto|intros [X|X]; congruence]]]].
+    + unfold dinv. repeat (split; [assumption|]). intro E. rewrite (HA E). constructor.
     + rewrite log_of_eq, (fv_entries P (d_cur d) A [] V), app_nil_r. reflexivity.
   - destruct L as (H1 & Hch & V & Cc & Hn & Hoff & Hlt & Hnil & HD).
     inversion Hnz as [|? ? He Hnz']; subst. inversion Hfit as [|? ? Hfe Hfit']; subst.
@@ -87,10 +88,10 @@ Proof.
         split; [cbn [map consec]; rewrite row_entry_new; split; [lia|exact Logic.I]|].
         split; [reflexivity|]. split; [lia|].
         split; [intros x [<-|[]]; cbn; lia|]. split; [discriminate|]. cbn. lia. }
-      destruct (IH (data_off P + 4 + p_len (e_data e)) d2 i0 [new_row (data_off P) e] [] L2) as (Ac' & I' & Lg & Mt & Al); auto.
+      destruct (IH (data_off P + 4 + p_len (e_data e)) d2 i0 [new_row (data_off P) e] [] L2) as (Ac' & I' & Lg & Mt & Al & Ne); auto.
       * unfold d2. cbn [d_files length]. rewrite Hflen. replace (i0 + (flen (d_files d) + N.of_nat (length A)) + N.of_nat 1) with (i0 + flen (d_files d) + N.of_nat (length A) + 1) by lia. exact Cr.
       * intros _. split; [reflexivity|discriminate].
-      * exists Ac'. split; [exact I'|]. split; [|split; [exact Mt|]].
+      * exists Ac'. split; [exact I'|]. split; [|split; [exact Mt|split; [|intros _; apply Ne; left; discriminate]]].
         -- rewrite Lg. unfold d2. cbn [d_files map]. rewrite row_entry_new, map_app, concat_app. cbn [map concat].
            rewrite (fv_entries P c' A D Vc'), app_nil_r, <- !app_assoc. reflexivity.
         -- intros ED Hal. apply Al; [reflexivity|]. unfold d2. cbn [d_files]. apply Forall_app. split; [exact Hal|].
@@ -108,13 +109,29 @@ Proof.
         split; [rewrite app_length; cbn [length]; lia|]. split; [lia|].
         split; [intros x Hx; apply in_app_or in Hx as [Hx|[<-|[]]]; [specialize (Hlt x Hx); lia|cbn; lia]|].
         split; [intro E; destruct A; discriminate|]. destruct D as [|? [|? ?]]; cbn in *; lia. }
-      destruct (IH (off + 4 + p_len (e_data e)) d2 i0 (A ++ [new_row off e]) (tl D) L2) as (Ac' & I' & Lg & Mt & Al); auto.
+      destruct (IH (off + 4 + p_len (e_data e)) d2 i0 (A ++ [new_row off e]) (tl D) L2) as (Ac' & I' & Lg & Mt & Al & Ne); auto.
       * unfold d2. cbn [d_files]. rewrite app_length. cbn [length].
         replace (i0 + flen (d_files d) + N.of_nat (length A + 1)) with (i0 + flen (d_files d) + N.of_nat (length A) + 1) by lia. exact Cr.
       * intros _. split; [destruct D as [|? [|? ?]]; cbn in *; [reflexivity|reflexivity|lia]|intro E; destruct A; discriminate].
-      * exists Ac'. split; [exact I'|]. split; [|split; [exact Mt|]].
+      * exists Ac'. split; [exact I'|]. split; [|split; [exact Mt|split; [|intros _; apply Ne; left; intro X; destruct A; discriminate]]].
         -- rewrite Lg. unfold d2. cbn [d_files]. rewrite map_app. cbn [map]. rewrite row_entry_new, <- !app_assoc. reflexivity.
         -- intros ED Hal. apply Al; [subst D; reflexivity|exact Hal].
+Qed.
+
+Lemma append_loop_inv_ne : forall P, wf_params P = true -> forall e r off d i0 A D,
+  linv P i0 d A D off ->
+  consec (i0 + flen (d_files d) + N.of_nat (length A)) (e :: r) ->
+  Forall (fun e => e_index e <> 0) (e :: r) -> Forall (fits P) (e :: r) ->
+  (e :: r = [] -> D = [] /\ (A = [] -> d_files d = [])) ->
+  exists Ac', dinv P i0 (append_loop P (e :: r) off d) Ac'
+              /\ log_of (append_loop P (e :: r) off d) = concat (map file_entries (d_files d)) ++ map row_entry A ++ e :: r
+              /\ d_meta (append_loop P (e :: r) off d) = d_meta d
+              /\ (D = [] -> Forall all_live (d_files d) -> Forall all_live (d_files (append_loop P (e :: r) off d)))
+              /\ Ac' <> [].
+Proof.
+  intros P HP e r off d i0 A D L C Hnz Hfit Hend.
+  destruct (append_loop_inv P HP (e :: r) off d i0 A D L C Hnz Hfit Hend) as (Ac' & X1 & X2 & X3 & X4 & X5).
+  exists Ac'. repeat (split; [assumption|]). apply X5. right. discriminate.
 Qed.
 
 (* ---- from the conflict handling to the loop ---- *)
@@ -157,14 +174,15 @@ Lemma after_conflict_inv : forall P, wf_params P = true -> forall e r d1 i0 A D,
               /\ log_of (after_conflict P (e :: r) d1)
                  = concat (map file_entries (d_files d1)) ++ map row_entry A ++ e :: r
               /\ d_meta (after_conflict P (e :: r) d1) = d_meta d1
-              /\ (D = [] -> Forall all_live (d_files d1) -> Forall all_live (d_files (after_conflict P (e :: r) d1))).
+              /\ (D = [] -> Forall all_live (d_files d1) -> Forall all_live (d_files (after_conflict P (e :: r) d1)))
+              /\ Ac' <> [].
 Proof.
   intros P HP e r d1 i0 A D H1 Hch V C Hn HD Ces Hnz Hfit.
   destruct (wf_params_facts P HP) as (Hmax & Hoffp & Hsz).
   unfold after_conflict. rewrite Hn.
   destruct (N.of_nat (length A) =? 0) eqn:E0.
   - assert (EA : A = []) by (destruct A; [reflexivity|cbn in E0; lia]).
-    apply (append_loop_inv P HP (e :: r) (data_off P) (mkdisk (d_files d1) (d_cur d1) (N.of_nat (length A)) (d_meta d1)) i0 A D); auto.
+    apply (append_loop_inv_ne P HP e r (data_off P) (mkdisk (d_files d1) (d_cur d1) (N.of_nat (length A)) (d_meta d1)) i0 A D); auto.
     + unfold linv. cbn [d_files d_cur d_next]. subst A.
       split; [exact H1|]. split; [exact Hch|]. split; [exact V|]. split; [exact C|]. split; [reflexivity|].
       split; [unfold entry_sz in Hoffp; lia|]. split; [intros x []|]. split; [reflexivity|exact HD].
@@ -176,7 +194,7 @@ Proof.
     unfold slot_at. rewrite (fv_row_at_live P (d_cur d1) A D p V Hp).
     pose proof (fv_good _ _ _ _ V) as G. rewrite Forall_forall in G.
     destruct (G (nth p A zero_row) (nth_In _ _ Hp)) as (_ & G2 & _).
-    apply (append_loop_inv P HP (e :: r) _ (mkdisk (d_files d1) c (N.of_nat (length A)) (d_meta d1)) i0 A D); auto.
+    apply (append_loop_inv_ne P HP e r _ (mkdisk (d_files d1) c (N.of_nat (length A)) (d_meta d1)) i0 A D); auto.
     + unfold linv. cbn [d_files d_cur d_next].
       split; [exact H1|]. split; [exact Hch|]. split; [exact Vc|]. split; [exact C|]. split; [reflexivity|].
       split; [lia|]. split.
@@ -217,33 +235,46 @@ Qed.
 Lemma Forall_firstn_any : forall {T} (Q : T -> Prop) k l, Forall Q l -> Forall Q (firstn k l).
 Proof. intros T Q k l H. revert k. induction H as [|x r Hx Hr IH]; intro k; destruct k; cbn [firstn]; auto. Qed.
 
+(* clearing from the first empty slot of a file without dead rows changes nothing (the conflict handling of a Save that
+   starts right behind the newest rotated file while the current file is empty) *)
+Definition clears_end (v : variant) (P : params) : Prop :=
+  forall endb hi f A, fview P f A [] -> A <> [] -> f_n f <= hi ->
+    fview P (clear_slots v P endb hi (N.of_nat (length A)) f) A [].
+
+(* the current file holds an entry, or nothing is stored at all: true in every state reached without a failed Save *)
+Definition Sd (d : disk) : Prop := file_entries (d_cur d) = [] -> log_of d = [].
+
+Lemma Sd_char : forall P d i0 Ac, dinv P i0 d Ac -> (Sd d <-> (Ac = [] -> log_of d = [])).
+Proof.
+  intros P d i0 Ac I. pose proof I as (_ & _ & V & _). unfold Sd. rewrite (fv_entries P (d_cur d) Ac [] V).
+  split; intros H E; apply H; [now rewrite E|destruct Ac; [reflexivity|discriminate]].
+Qed.
+
 Lemma add_entries_inv : forall v P nd, wf_params P = true -> clears v P nd -> forall d i0 Ac e0 r,
-  dinv P i0 d Ac ->
+  dinv P i0 d Ac -> (clears_end v P \/ Sd d) ->
   consec (e_index e0) (e0 :: r) -> 1 <= e_index e0 -> Forall (fits P) (e0 :: r) ->
   (log_of d = [] \/ (first_of (log_of d) <= e_index e0 /\ e_index e0 <= last_of (log_of d) + 1)) ->
   exists i0' Ac', dinv P i0' (add_entries v P (e0 :: r) d) Ac'
                   /\ log_of (add_entries v P (e0 :: r) d) = s_append (e0 :: r) (log_of d)
                   /\ d_meta (add_entries v P (e0 :: r) d) = d_meta d
-                  /\ (nd = true -> Forall all_live (d_files d) -> Forall all_live (d_files (add_entries v P (e0 :: r) d))).
+                  /\ (nd = true -> Forall all_live (d_files d) -> Forall all_live (d_files (add_entries v P (e0 :: r) d)))
+                  /\ Ac' <> [].
 Proof.
-  intros v P nd HP Hclr d i0 Ac e0 r I Ces Hb Hfit Hrange.
+  intros v P nd HP Hclr d i0 Ac e0 r I HE Ces Hb Hfit Hrange.
   destruct (wf_params_facts P HP) as (Hmax & Hoffp & Hsz). unfold entry_sz in Hoffp.
-  pose proof I as (H1 & Hch & V & C & Hn & He).
+  pose proof I as (H1 & Hch & V & C & Hn & HKl).
   pose proof (consec_nz _ _ Ces Hb) as Hnz.
   set (b := e_index e0) in *.
   rewrite add_entries_eq. fold b. unfold conflict_step. cbn [s_append]. fold b.
-  destruct (nil_or_not Ac) as [EA|EA].
+  destruct (inv_cases P d i0 Ac I) as [(EA & Ef & Hl)|Hne].
   - (* empty log *)
-    assert (Hl : log_of d = []) by (rewrite (inv_log P d i0 Ac I), (He EA), EA; reflexivity).
-    rewrite (slot_ge_empty P d i0 Ac I EA b), Hl.
-    subst Ac. pose proof (dinv_empty_any P i0 d I b Hb) as (_ & Hch' & V' & _ & Hn' & He').
-    destruct (after_conflict_inv P HP e0 r d b [] [] Hb Hch' V' Logic.I Hn' ltac:(cbn; lia)) as (Ac' & I' & L' & M' & N'); auto.
-    { rewrite (He eq_refl), flen_nil. cbn [length N.of_nat]. now rewrite !N.add_0_r. }
-    exists b, Ac'. split; [exact I'|]. split; [|split; [exact M'|intros _ Hal; now apply N']].
-    rewrite L', (He eq_refl). cbn. now destruct (N.to_nat _).
-  - assert (Hne : log_of d <> []).
-    { rewrite (inv_log P d i0 Ac I). destruct Ac; [congruence|]. intro X. apply app_eq_nil in X as [_ X]. discriminate. }
-    assert (Hf : first_of (log_of d) = i0) by (apply (inv_first P d i0 Ac I Hne)).
+    rewrite (slot_ge_empty P d i0 Ac I EA Ef b), Hl.
+    subst Ac. pose proof (dinv_empty_any P i0 d I Ef b Hb) as (_ & Hch' & V' & _ & Hn' & _).
+    destruct (after_conflict_inv P HP e0 r d b [] [] Hb Hch' V' Logic.I Hn' ltac:(cbn; lia)) as (Ac' & I' & L' & M' & N' & Ne'); auto.
+    { rewrite Ef, flen_nil. cbn [length N.of_nat]. now rewrite !N.add_0_r. }
+    exists b, Ac'. split; [exact I'|]. split; [|split; [exact M'|split; [intros _ Hal; now apply N'|exact Ne']]].
+    rewrite L', Ef. cbn. now destruct (N.to_nat _).
+  - assert (Hf : first_of (log_of d) = i0) by (apply (inv_first P d i0 Ac I Hne)).
     assert (Hlast : last_of (log_of d) + 1 = i0 + flen (d_files d) + N.of_nat (length Ac)).
     { rewrite (consec_last _ _ (inv_consec P d i0 Ac I) Hne). pose proof (inv_len P d i0 Ac I).
       destruct (log_of d); [congruence|]. cbn [length] in *. lia. }
@@ -270,11 +301,11 @@ Proof.
         as (Dz & HDz & HDn & Vz).
       set (d1 := mkdisk pre (clear_slots v P (data_off P) (max_entries P) (N.of_nat lo) f) (N.of_nat lo) (d_meta d)).
       assert (Hlen : length (firstn lo A) = lo) by (apply firstn_length_le; unfold lo; lia).
-      destruct (after_conflict_inv P HP e0 r d1 i0 (firstn lo A) _ H1 Hpre Vz) as (Ac' & I' & L' & M' & N'); auto.
+      destruct (after_conflict_inv P HP e0 r d1 i0 (firstn lo A) _ H1 Hpre Vz) as (Ac' & I' & L' & M' & N' & Ne'); auto.
       * cbn [d_files d1]. fold fi. now apply consec_firstn_rows.
       * cbn [d_next d1]. now rewrite Hlen.
       * cbn [d_files d1]. rewrite Hlen. fold fi. replace (fi + N.of_nat lo) with b by lia. exact Ces.
-      * exists i0, Ac'. split; [exact I'|]. split; [|split; [exact M'|]].
+      * exists i0, Ac'. split; [exact I'|]. split; [|split; [exact M'|split; [|exact Ne']]].
         2:{ intros End Hal. apply N'; [now apply HDn|]. cbn [d_files d1]. try rewrite Hfs in Hal. apply Forall_app in Hal. tauto. }
         rewrite L'. cbn [d_files d1]. rewrite (inv_log P d i0 Ac I), Hfs, map_app, concat_app. cbn [map concat].
         rewrite (fv_entries P f A D Vf), <- !app_assoc.
@@ -293,65 +324,145 @@ Proof.
                     ltac:(rewrite Hfn; lia) ltac:(unfold entry_sz; lia) ltac:(rewrite Hfn; lia)) as (Dz & HDz & HDn & Vz).
         set (d1 := mkdisk (d_files d) (clear_slots v P (entry_sz * N.of_nat (length Ac)) (N.of_nat (length Ac)) (N.of_nat lo) (d_cur d)) (N.of_nat lo) (d_meta d)).
         assert (Hlen : length (firstn lo Ac) = lo) by (apply firstn_length_le; unfold lo; lia).
-        destruct (after_conflict_inv P HP e0 r d1 i0 (firstn lo Ac) _ H1 Hch Vz) as (Ac' & I' & L' & M' & N'); auto.
+        destruct (after_conflict_inv P HP e0 r d1 i0 (firstn lo Ac) _ H1 Hch Vz) as (Ac' & I' & L' & M' & N' & Ne'); auto.
         -- cbn [d_files d1]. now apply consec_firstn_rows.
         -- cbn [d_next d1]. now rewrite Hlen.
         -- cbn [d_files d1]. rewrite Hlen. fold c0. replace (c0 + N.of_nat lo) with b by lia. exact Ces.
-        -- exists i0, Ac'. split; [exact I'|]. split; [|split; [exact M'|]].
+        -- exists i0, Ac'. split; [exact I'|]. split; [|split; [exact M'|split; [|exact Ne']]].
            2:{ intros End Hal. apply N'; [now apply HDn|exact Hal]. }
            rewrite L'. cbn [d_files d1]. rewrite (inv_log P d i0 Ac I).
            replace (N.to_nat (b - i0)) with (length (concat (map file_entries (d_files d))) + lo)%nat
              by (rewrite Hlp; unfold lo, c0; lia).
            rewrite firstn_app_2, firstn_map, <- app_assoc. reflexivity.
-      * (* pure append *)
+      * destruct (nil_or_not Ac) as [EA|EA].
+        { (* the current file is empty beside older files (a failed Save left it so): the batch starts right behind the
+             newest rotated file; that file is found, nothing has to be cleared, it becomes the current file again *)
+          destruct HE as [Hend|HS].
+          2:{ exfalso. apply Hne. apply (proj1 (Sd_char P d i0 Ac I) HS EA). }
+          assert (Ef : d_files d <> []).
+          { intro Ef. apply Hne. rewrite (inv_log P d i0 Ac I), Ef, EA. reflexivity. }
+          destruct (exists_last Ef) as (pre & f & Hfs).
+          destruct (slot_ge_files_beyond P d i0 Ac I EA pre f b Hfs ltac:(fold c0; lia)) as (A & D & Vf & HAf & Cf & ->).
+          assert (ED : D = []).
+          { apply (all_live_no_dead P f A D Vf). specialize (HKl EA). rewrite Hfs in HKl. apply Forall_app in HKl as [_ HKl]. now inversion HKl. }
+          subst D.
+          rewrite Hfs, firstn_app, firstn_all, Nat.sub_diag. cbn [firstn]. rewrite app_nil_r.
+          rewrite app_nth2 by lia. rewrite Nat.sub_diag. cbn [nth].
+          pose proof Hch as Hch2. rewrite Hfs in Hch2. apply chain_app in Hch2 as [Hpre _].
+          pose proof (Hend (data_off P) (max_entries P) f A Vf HAf (fv_max _ _ _ _ Vf)) as Vz.
+          set (d1 := mkdisk pre (clear_slots v P (data_off P) (max_entries P) (N.of_nat (length A)) f) (N.of_nat (length A)) (d_meta d)).
+          assert (Hc0 : c0 = i0 + flen pre + N.of_nat (length A)).
+          { unfold c0. rewrite Hfs, flen_app, (flen_cons P f A [] [] Vf), flen_nil. lia. }
+          assert (Hb0 : b = c0).
+          { clear -E1 E2 Hhi EA. subst Ac. cbn [length N.of_nat] in *. lia. }
+          assert (Hces : consec (i0 + flen pre + N.of_nat (length A)) (e0 :: r)) by (rewrite <- Hc0, <- Hb0; exact Ces).
+          destruct (after_conflict_inv P HP e0 r d1 i0 A [] H1 Hpre Vz Cf eq_refl ltac:(cbn; lia) Hces Hnz Hfit)
+            as (Ac' & I' & L' & M' & N' & Ne').
+          - exists i0, Ac'. split; [exact I'|]. split; [|split; [exact M'|split; [|exact Ne']]].
+            2:{ intros _ Hal. apply N'; [reflexivity|]. cbn [d_files d1]. try rewrite Hfs in Hal. apply Forall_app in Hal. tauto. }
+            rewrite L'. cbn [d_files d1]. rewrite firstn_all2.
+            + rewrite (inv_log P d i0 Ac I), Hfs, EA, map_app, concat_app. cbn [map concat].
+              rewrite (fv_entries P f A [] Vf), !app_nil_r, <- app_assoc. reflexivity.
+            + pose proof (inv_len P d i0 Ac I) as L. rewrite EA in L. cbn [length] in L. unfold c0 in *. lia. }
+        (* pure append *)
         rewrite (slot_ge_cur_beyond P d i0 Ac I b EA) by (fold c0; lia).
         rewrite Hn, N.ltb_irrefl.
         set (d1 := mkdisk (d_files d) (d_cur d) (N.of_nat (length Ac)) (d_meta d)).
-        destruct (after_conflict_inv P HP e0 r d1 i0 Ac [] H1 Hch V C eq_refl ltac:(cbn; lia)) as (Ac' & I' & L' & M' & N'); auto.
+        destruct (after_conflict_inv P HP e0 r d1 i0 Ac [] H1 Hch V C eq_refl ltac:(cbn; lia)) as (Ac' & I' & L' & M' & N' & Ne'); auto.
         -- cbn [d_files d1]. fold c0. replace (c0 + N.of_nat (length Ac)) with b by lia. exact Ces.
-        -- exists i0, Ac'. split; [exact I'|]. split; [|split; [exact M'|]].
+        -- exists i0, Ac'. split; [exact I'|]. split; [|split; [exact M'|split; [|exact Ne']]].
            2:{ intros _ Hal. now apply N'. }
            rewrite L'. cbn [d_files d1]. rewrite firstn_all2.
            ++ rewrite (inv_log P d i0 Ac I), <- app_assoc. reflexivity.
            ++ pose proof (inv_len P d i0 Ac I). unfold c0 in *. lia.
 Qed.
 
+Lemma Sd_meta : forall d m, Sd d -> Sd (mkdisk (d_files d) (d_cur d) (d_next d) m).
+Proof. intros d m H. exact H. Qed.
+
 Lemma step_save : forall P, wf_params P = true -> forall d i0 Ac es h s,
-  dinv P i0 d Ac -> valid_op P (Save es h s) (abs d) -> step_ok P (Save es h s) d.
+  dinv P i0 d Ac -> Sd d -> valid_op P (Save es h s) (abs d) ->
+  step_ok P (Save es h s) d /\ Sd (fst (step_disk VRepaired P (Save es h s) d)).
 Proof.
-  intros P HP d i0 Ac es h s I Hv. unfold step_ok. cbn [step_disk step_spec].
+  intros P HP d i0 Ac es h s I HS Hv. unfold step_ok. cbn [step_disk step_spec fst].
   assert (H : exists i0' Ac', dinv P i0' (add_entries VRepaired P es d) Ac'
                               /\ log_of (add_entries VRepaired P es d) = s_append es (log_of d)
-                              /\ d_meta (add_entries VRepaired P es d) = d_meta d).
+                              /\ d_meta (add_entries VRepaired P es d) = d_meta d
+                              /\ Sd (add_entries VRepaired P es d)).
   { destruct es as [|e0 r].
     - exists i0, Ac. cbn [add_entries s_append]. auto.
     - cbn [valid_op] in Hv. destruct Hv as (Ces & Hb & Hfit & Hrange). change (a_ents (abs d)) with (log_of d) in Hrange.
-      destruct (add_entries_inv VRepaired P false HP (clears_repaired P) d i0 Ac e0 r I Ces Hb Hfit Hrange) as (a & b & X1 & X2 & X3 & _).
-      eauto. }
-  destruct H as (i0' & Ac' & I' & L' & M').
+      destruct (add_entries_inv VRepaired P false HP (clears_repaired P) d i0 Ac e0 r I (or_intror HS) Ces Hb Hfit Hrange)
+        as (a & b & X1 & X2 & X3 & _ & X5).
+      exists a, b. repeat (split; [assumption|]). apply (proj2 (Sd_char P _ a b X1)). congruence. }
+  destruct H as (i0' & Ac' & I' & L' & M' & S').
   set (d1 := add_entries VRepaired P es d) in *.
   set (d2 := mkdisk (d_files d1) (d_cur d1) (d_next d1) (store_snap s (store_hs h (d_meta d1)))).
   assert (I2 : dinv P i0' d2 Ac') by exact I'.
   assert (Habs : abs d2 = mkalog (s_append es (a_ents (abs d))) (store_snap s (store_hs h (a_meta (abs d))))).
   { rewrite abs_log. change (log_of d2) with (log_of d1). rewrite L'. unfold d2. cbn [d_meta]. rewrite M'. reflexivity. }
+  split; [|exact S'].
   split; [eauto|]. split; [exact Habs|].
   rewrite (dres_res P d2 i0' Ac' _ _ _ _ I2), Habs. reflexivity.
+Qed.
+
+(* the stronger state property is kept by every other operation as well *)
+Lemma sd_other : forall P o d i0 Ac, dinv P i0 d Ac -> Sd d ->
+  match o with Save _ _ _ => True | Entries _ hi _ => 1 <= hi | _ => True end ->
+  match o with Save _ _ _ => True | _ => Sd (fst (step_disk VRepaired P o d)) end.
+Proof.
+  intros P o d i0 Ac I0 HS Hv. destruct o as [es h s|lo hi max|i|i vo dt|j| | |]; try exact Logic.I; cbn [step_disk].
+  - (* Entries *)
+    pose proof (dinv_at_first P i0 d Ac I0) as I.
+    unfold disk_entries. rewrite (inv_disk_first P d _ Ac I).
+    destruct (lo <? first_of (log_of d)) eqn:E1; [exact HS|].
+    destruct (log_last P d + 1 <? hi); [exact HS|].
+    destruct (all_entries_spec P lo hi max d (first_of (log_of d)) Ac I Hv ltac:(lia)) as (d' & Hall & I' & L' & _).
+    rewrite Hall. cbn [fst]. apply (proj2 (Sd_char P d' _ Ac I')). rewrite L'. exact (proj1 (Sd_char P d _ Ac I) HS).
+  - destruct (disk_term P d i). exact HS.
+  - unfold disk_csnap. destruct (i <? disk_first d); [exact HS|]. destruct (seek_entry P d i) as [[] sl]; exact HS.
+  - destruct (delete_before_state P d i0 Ac j I0) as ((i0' & I') & L' & _).
+    destruct (delete_before P j d) as [e d']. cbn [fst snd] in *.
+    apply (proj2 (Sd_char P d' i0' Ac I')). intro EA. rewrite L', (proj1 (Sd_char P d i0 Ac I0) HS EA).
+    unfold drop_below. apply skipn_nil.
+  - (* Reopen *)
+    cbn [fst]. unfold reopen.
+    destruct (open_logs_inv P d i0 Ac I0) as ((Ac1 & I1) & L1 & M1 & Isame).
+    set (d1 := open_logs P d) in *.
+    set (j := (if 0 <? snap_i (d_meta d1) then snap_i (d_meta d1) + 1 else disk_first d1) - 1).
+    destruct (nil_or_not Ac) as [EA|EA].
+    + pose proof (proj1 (Sd_char P d i0 Ac I0) HS EA) as Hl.
+      destruct (delete_before_state P d1 i0 Ac1 j I1) as ((i0' & I') & L' & _).
+      apply (proj2 (Sd_char P _ i0' Ac1 I')). intros _. rewrite L', L1, Hl. unfold drop_below. apply skipn_nil.
+    + specialize (Isame EA).
+      destruct (delete_before_state P d1 i0 Ac j Isame) as ((i0' & I') & L' & _).
+      apply (proj2 (Sd_char P _ i0' Ac I')). congruence.
+  - exact HS.
+  - (* Sum *)
+    pose proof (dinv_at_first P i0 d Ac I0) as I. unfold disk_all.
+    rewrite (inv_disk_first P d _ Ac I), (inv_log_last P d _ Ac I).
+    destruct (all_entries_spec P (first_of (log_of d)) (last_of (log_of d) + 1) 18446744073709551615 d
+                (first_of (log_of d)) Ac I ltac:(lia) ltac:(lia)) as (d' & Hall & I' & L' & _).
+    rewrite Hall. cbn [fst]. apply (proj2 (Sd_char P d' _ Ac I')). rewrite L'. exact (proj1 (Sd_char P d _ Ac I) HS).
 Qed.
 
 (* ---- every operation ---- *)
 
 Lemma step_all : forall P, wf_params P = true -> forall o d i0 Ac,
-  dinv P i0 d Ac -> valid_op P o (abs d) -> step_ok P o d.
+  dinv P i0 d Ac -> Sd d -> valid_op P o (abs d) -> step_ok P o d /\ Sd (fst (step_disk VRepaired P o d)).
 Proof.
-  intros P HP o d i0 Ac I Hv. destruct o.
+  intros P HP o d i0 Ac I HS Hv.
+  assert (Hv' : match o with Save _ _ _ => True | Entries _ hi _ => 1 <= hi | _ => True end) by (destruct o; try exact Logic.I; exact Hv).
+  pose proof (sd_other P o d i0 Ac I HS Hv') as SO.
+  destruct o.
   - now apply (step_save P HP d i0 Ac).
-  - now apply (step_entries P d i0 Ac).
-  - now apply (step_term P d i0 Ac).
-  - now apply (step_csnap P d i0 Ac).
-  - now apply (step_delete P d i0 Ac).
-  - now apply (step_reopen P d i0 Ac).
-  - now apply (step_getmeta P d i0 Ac).
-  - now apply (step_sum P d i0 Ac).
+  - split; [now apply (step_entries P d i0 Ac)|exact SO].
+  - split; [now apply (step_term P d i0 Ac)|exact SO].
+  - split; [now apply (step_csnap P d i0 Ac)|exact SO].
+  - split; [now apply (step_delete P d i0 Ac)|exact SO].
+  - split; [now apply (step_reopen P d i0 Ac)|exact SO].
+  - split; [now apply (step_getmeta P d i0 Ac)|exact SO].
+  - split; [now apply (step_sum P d i0 Ac)|exact SO].
 Qed.
 
 Fixpoint valid_spec (P : params) (ops : list sop) (choices : list N) (a : alog) : Prop :=
@@ -363,21 +474,26 @@ Fixpoint valid_spec (P : params) (ops : list sop) (choices : list N) (a : alog) 
 Lemma empty_disk_inv : forall P, dinv P 1 (empty_disk P) [].
 Proof.
   intro P. unfold dinv, empty_disk. cbn [d_files d_cur d_next chain].
-  split; [lia|]. split; [exact Logic.I|]. split; [apply new_file_view|]. split; [exact Logic.I|]. split; reflexivity.
+  split; [lia|]. split; [exact Logic.I|]. split; [apply new_file_view|]. split; [exact Logic.I|]. split; [reflexivity|]. intros _. constructor.
 Qed.
 
+Lemma empty_disk_sd : forall P, Sd (empty_disk P).
+Proof. intros P _. reflexivity. Qed.
+
 Lemma refines_from : forall P, wf_params P = true -> forall ops d i0 Ac,
-  dinv P i0 d Ac ->
+  dinv P i0 d Ac -> Sd d ->
   valid_spec P ops (map r_first (outputs_disk VRepaired P ops d)) (abs d) ->
   outputs_disk VRepaired P ops d = outputs_spec ops (map r_first (outputs_disk VRepaired P ops d)) (abs d)
   /\ abs (run_disk VRepaired P ops d) = run_spec ops (map r_first (outputs_disk VRepaired P ops d)) (abs d).
 Proof.
-  intros P HP. induction ops as [|o r IH]; intros d i0 Ac I Hv; [split; reflexivity|].
+  intros P HP. induction ops as [|o r IH]; intros d i0 Ac I HS Hv; [split; reflexivity|].
   cbn [outputs_disk run_disk] in *.
+  destruct (step_all P HP o d i0 Ac I HS) as [S S2].
+  { destruct (step_disk VRepaired P o d) as [d' x]. cbn [map] in Hv. cbn [valid_spec] in Hv. tauto. }
   destruct (step_disk VRepaired P o d) as [d' x] eqn:Es. cbn [map fst] in *.
   cbn [valid_spec outputs_spec run_spec] in *. destruct Hv as [Hv1 Hv2].
-  pose proof (step_all P HP o d i0 Ac I Hv1) as S. unfold step_ok in S. rewrite Es in S.
+  unfold step_ok in S. rewrite Es in S.
   destruct (step_spec o (r_first x) (abs d)) as [a' y] eqn:Ea. cbn [fst] in *.
   destruct S as ((i0' & Ac' & I') & Ha & Hx). subst a' y.
-  destruct (IH d' i0' Ac' I' Hv2) as [O R]. split; [now rewrite <- O|exact R].
+  destruct (IH d' i0' Ac' I' S2 Hv2) as [O R]. split; [now rewrite <- O|exact R].
 Qed.
